@@ -327,14 +327,50 @@ def afterOffset (M : List Nat) (lim : Option Limit) : List Nat :=
   | some o => M.drop o.toNat
   | none => M
 
-theorem findInBatches_spec (M : List Nat) (lim : Option Limit) (batch : Int) (fuel : Nat)
+theorem limitIsZero_iff (lim : Option Limit) : limitIsZero lim = true ↔ effLimitOf lim = some 0 := by
+  cases lim with
+  | none => simp [limitIsZero, effLimitOf]
+  | some l =>
+    cases hl : l.limit with
+    | none => simp [limitIsZero, effLimitOf, Limit.effLimit, hl]
+    | some n =>
+      simp only [limitIsZero, effLimitOf, Limit.effLimit, hl, Option.bind_some, beq_iff_eq, Option.some.injEq]
+      constructor
+      · intro h; subst h; rfl
+      · intro h; split at h <;> simp_all
+
+/-- outside a stored LIMIT 0 the early return is not taken: both transcriptions run the loop -/
+theorem findInBatchesQ_loop (zr : Bool) (q : Int → Option Int → Option Nat → List Nat) (lim : Option Limit)
+    (batch : Int) (fuel : Nat) (h0 : effLimitOf lim ≠ some 0) :
+    findInBatchesQ zr q lim batch fuel =
+      batchLoopQ q (effOffsetOf lim) (totalSizeOf lim) fuel { batchSize := clampBatch lim batch } [] [] := by
+  have hz : limitIsZero lim = false := by
+    cases h : limitIsZero lim with
+    | false => rfl
+    | true => exact absurd ((limitIsZero_iff lim).mp h) h0
+  simp [findInBatchesQ, hz]
+
+/-- the tree without the early return always runs the loop -/
+theorem findInBatchesQ_false (q : Int → Option Int → Option Nat → List Nat) (lim : Option Limit)
+    (batch : Int) (fuel : Nat) :
+    findInBatchesQ false q lim batch fuel =
+      batchLoopQ q (effOffsetOf lim) (totalSizeOf lim) fuel { batchSize := clampBatch lim batch } [] [] := by
+  simp [findInBatchesQ]
+
+/-- with the early return a stored LIMIT 0 issues one `LIMIT 0` query and hands nothing to `fc` -/
+theorem findInBatchesQ_zero (q : Int → Option Int → Option Nat → List Nat) (lim : Option Limit)
+    (batch : Int) (fuel : Nat) (h0 : effLimitOf lim = some 0) :
+    findInBatchesQ true q lim batch fuel = zeroLimitOut lim := by
+  simp [findInBatchesQ, (limitIsZero_iff lim).mpr h0]
+
+theorem findInBatches_spec (zr : Bool) (M : List Nat) (lim : Option Limit) (batch : Int) (fuel : Nat)
     (hs : M.Pairwise (· < ·)) (hp : ∀ k ∈ M, 0 < k) (hb : 0 < batch)
     (h0 : effLimitOf lim ≠ some 0) (hf : M.length + 1 ≤ fuel) :
-    (findInBatches M lim batch fuel).batches.flatten = findAll M lim
-    ∧ (∀ b ∈ (findInBatches M lim batch fuel).batches, b ≠ [] ∧ (b.length : Int) ≤ batch)
-    ∧ (findInBatches M lim batch fuel).outOfFuel = false
-    ∧ (findInBatches M lim batch fuel).pkRequired = false
-    ∧ (findInBatches M lim batch fuel).rowsAffected = ((findAll M lim).length : Int) := by
+    (findInBatches zr M lim batch fuel).batches.flatten = findAll M lim
+    ∧ (∀ b ∈ (findInBatches zr M lim batch fuel).batches, b ≠ [] ∧ (b.length : Int) ≤ batch)
+    ∧ (findInBatches zr M lim batch fuel).outOfFuel = false
+    ∧ (findInBatches zr M lim batch fuel).pkRequired = false
+    ∧ (findInBatches zr M lim batch fuel).rowsAffected = ((findAll M lim).length : Int) := by
   have inv : BatchInv M (effOffsetOf lim) (totalSizeOf lim) (clampBatch lim batch)
       { batchSize := clampBatch lim batch } (afterOffset M lim) := by
     refine ⟨clampBatch_pos _ _ hb, Int.le_refl _, ?_, ?_, ?_⟩
@@ -368,16 +404,42 @@ theorem findInBatches_spec (M : List Nat) (lim : Option Limit) (batch : Int) (fu
     · rw [if_neg hT, totalSize_pos_limit lim (by omega)]
       simp only [findQ, afterOffset, Int.sub_zero]
       cases effOffsetOf lim <;> rfl
-  have hbat : (findInBatches M lim batch fuel).batches = bl := by
-    simpa [findInBatches, findInBatchesQ] using h1
+  have hloop : findInBatches zr M lim batch fuel =
+      batchLoopQ (fun l o g => findQ M (some l) o g) (effOffsetOf lim) (totalSizeOf lim) fuel
+        { batchSize := clampBatch lim batch } [] [] := findInBatchesQ_loop zr _ lim batch fuel h0
+  rw [hloop]
+  have hbat : (batchLoopQ (fun l o g => findQ M (some l) o g) (effOffsetOf lim) (totalSizeOf lim) fuel
+        { batchSize := clampBatch lim batch } [] []).batches = bl := by
+    simpa using h1
   refine ⟨?_, ?_, h4, h5, ?_⟩
   · rw [hbat, h2, hfind]
   · intro b hbm
     rw [hbat] at hbm
     have := h3 b hbm
     exact ⟨this.1, Int.le_trans this.2 (clampBatch_le lim batch)⟩
-  · have : (findInBatches M lim batch fuel).rowsAffected = 0 + (bl.flatten.length : Int) := h6
+  · have : (batchLoopQ (fun l o g => findQ M (some l) o g) (effOffsetOf lim) (totalSizeOf lim) fuel
+        { batchSize := clampBatch lim batch } [] []).rowsAffected = 0 + (bl.flatten.length : Int) := h6
     rw [this, h2, hfind]; simp
+
+/-- `Find` on a chain with a stored LIMIT 0 returns nothing -/
+theorem findAll_zero (M : List Nat) (lim : Option Limit) (h0 : effLimitOf lim = some 0) : findAll M lim = [] := by
+  unfold findAll findQ
+  rw [h0]
+  cases effOffsetOf lim <;> simp
+
+/-- the specification WITHOUT the exclusion of LIMIT 0, for the transcription with the early return -/
+theorem findInBatches_spec_zeroRet (M : List Nat) (lim : Option Limit) (batch : Int) (fuel : Nat)
+    (hs : M.Pairwise (· < ·)) (hp : ∀ k ∈ M, 0 < k) (hb : 0 < batch) (hf : M.length + 1 ≤ fuel) :
+    (findInBatches true M lim batch fuel).batches.flatten = findAll M lim
+    ∧ (∀ b ∈ (findInBatches true M lim batch fuel).batches, b ≠ [] ∧ (b.length : Int) ≤ batch)
+    ∧ (findInBatches true M lim batch fuel).outOfFuel = false
+    ∧ (findInBatches true M lim batch fuel).pkRequired = false
+    ∧ (findInBatches true M lim batch fuel).rowsAffected = ((findAll M lim).length : Int) := by
+  by_cases h0 : effLimitOf lim = some 0
+  · have e : findInBatches true M lim batch fuel = zeroLimitOut lim := findInBatchesQ_zero _ lim batch fuel h0
+    rw [e, findAll_zero M lim h0]
+    simp [zeroLimitOut]
+  · exact findInBatches_spec true M lim batch fuel hs hp hb h0 hf
 
 theorem findAll_sublist (M : List Nat) (lim : Option Limit) : (findAll M lim).Sublist M := by
   unfold findAll findQ
@@ -473,9 +535,9 @@ theorem queryW_eq_findQ (tbl : List Nat) (us : List WUnit) (ord : List OrdCol)
   unfold findQ window
   cases gt <;> rfl
 
-theorem findInBatchesW_eq (tbl : List Nat) (us : List WUnit) (ord : List OrdCol)
+theorem findInBatchesW_eq (zr : Bool) (tbl : List Nat) (us : List WUnit) (ord : List OrdCol)
     (hOr : ∀ u ∈ us, u.isOr = false) (hOrd : KeyMonotone tbl ord) (lim : Option Limit) (batch : Int) (fuel : Nat) :
-    findInBatchesW tbl us ord lim batch fuel = findInBatches (matchingW tbl us) lim batch fuel := by
+    findInBatchesW zr tbl us ord lim batch fuel = findInBatches zr (matchingW tbl us) lim batch fuel := by
   unfold findInBatchesW findInBatches
   congr 1
   funext l o g
